@@ -350,6 +350,55 @@ def lammpstrj_partition(n: int, a: int, b: int) -> bool:
     return _text_partition("lammpstrj", n, a, b, False)
 
 
+def gro_pdb_partition(fmt: int, n: int, a: int, b: int, cell: bool) -> bool:
+    """
+    pre: 0 <= fmt <= 1 and 1 <= n <= 4 and 0 <= a <= b <= n
+    post: __return__
+    """
+    # gro (one write call per piece) and pdb (one write call per model): the text written in pieces equals the one-shot text
+    import mdtraj.formats.gro as _gro
+    import mdtraj.formats.pdb.pdbfile as _pdb
+    from mdtraj.core import element as _el
+    from mdtraj.core.topology import Topology
+    fmt, n, a, b = conc(fmt, 0, 1), conc(n, 1, 4), conc(a, 0, 4), conc(b, 0, 4)
+    # (CrossHair silences the builtin print; the PDB writer prints to its file object: give the module an explicit one)
+    _pdb.print = lambda *x, file=None, **k: file.write(" ".join(str(v) for v in x) + "\n")
+    top = Topology()
+    ch = top.add_chain()
+    r = top.add_residue("ALA", ch)
+    for i in range(NA):
+        top.add_atom("C%d" % i, _el.carbon, r)
+    outs = []
+    for pieces in ([(0, a), (a, b), (b, n)], [(0, n)]):
+        fh = io.StringIO()
+        if fmt == 0:
+            f = object.__new__(_gro.GroTrajectoryFile)
+            f._open, f._mode, f._file, f._frame_index, f.n_atoms = True, "w", fh, 0, 0
+            for s_, e in pieces:
+                if e <= s_:
+                    continue
+                box = None
+                if cell:
+                    box = np.zeros((e - s_, 3, 3))
+                    for k in range(3):
+                        box[:, k, k] = cells(s_, e - s_)[:, k]
+                f.write(frames(s_, e - s_), top, times(s_, e - s_), box)
+        else:
+            f = object.__new__(_pdb.PDBTrajectoryFile)
+            f._open, f._mode, f._file, f._header_written, f._footer_written, f._last_topology = True, "w", fh, False, False, None
+            for s_, e in pieces:
+                for k in range(s_, e):
+                    if cell:
+                        f.write(frames(k, 1)[0], top, modelIndex=k, unitcell_lengths=tuple(cells(0, 1)[0]), unitcell_angles=(90.0, 90.0, 90.0))
+                    else:
+                        f.write(frames(k, 1)[0], top, modelIndex=k)
+        outs.append(fh.getvalue())
+    inc, one = outs
+    if fmt == 0:
+        return inc == one and inc.count("Generated with MDTraj") == n
+    return inc == one and inc.count("MODEL ") == n and inc.count("CRYST1") == (1 if cell else 0)
+
+
 def mdcrd_ragged_box(k: int, hb: bool, m: int) -> bool:
     """
     pre: 1 <= k <= 2 and 1 <= m <= 2
